@@ -296,6 +296,9 @@ def _spec_verdict(model_lines, impl_lines):
     first = next(((a.strip(), b.strip()) for a, b in zip(model_lines, impl_lines) if a != b), None)
     if first:
         m, i = first
+        if i == "tree hang":
+            return ("the final walk of the tree (ReadDir / ReadFile of every node after the schedule) does not return within "
+                    "the watchdog: a file or directory was left, or was born, locked: " + i)
         if i.endswith(" hang") and not m.endswith(" hang"):
             return ("a call blocks for ever (its goroutine is parked on a sync lock - read from the runtime after a generous "
                     "wait; the model says it proceeds): " + i)
@@ -716,7 +719,7 @@ def _report_replay(ctx, confirmed):
 def _stress(ctx, go, model, race=False):
     procs_n = ctx.pick(8, 14) if not race else ctx.pick(3, 8)
     rounds = (ctx.pick(150, 1500) if not race else ctx.pick(15, 120))
-    runs = []
+    runs, runs_env = [], []
     for i in range(procs_n):
         e = ctx.goenv()
         e["VERIF_SEED"] = str(ctx.seed * 1000 + i + (500 if race else 0))
@@ -725,17 +728,30 @@ def _stress(ctx, go, model, race=False):
         hp = ctx.path("%s%d.hist" % ("race" if race else "stress", i))
         runs.append((hp, subprocess.Popen([go, "stress", str(rounds), "chaos"], stdout=open(hp, "wb"),
                                           stderr=subprocess.PIPE, env=e)))
+        runs_env.append(e["VERIF_SEED"])
     rejects, hist_n, races, crashes = [], 0, [], []
-    for hp, p in runs:
+    budget = int(os.environ.get("C09_STRESS_TIMEOUT", ctx.pick(240, 4000)))
+    deadline = time.time() + budget
+    stuck = []
+    for k, (hp, p) in enumerate(runs):
+        killed = False
         try:
-            _, err = p.communicate(timeout=ctx.pick(900, 4000))
+            _, err = p.communicate(timeout=max(1.0, deadline - time.time()))
         except subprocess.TimeoutExpired:
+            # a stress process that does not end although every round has a watchdog: something of the implementation
+            # blocks outside them - a RESULT.  The complete histories it wrote are judged; the round it is stuck in is
+            # reported (reproduce with the seed below)
             p.kill()
-            ctx.fatal("stress run timed out (its own watchdog should have fired first)")
+            _, err = p.communicate()
+            killed = True
+            txt = open(hp, errors="replace").read()
+            cut = txt.rfind("endhistory\n")
+            open(hp, "w").write(txt[:cut + len("endhistory\n")] if cut >= 0 else "")
+            stuck.append((runs_env[k], txt[cut + len("endhistory\n"):] if cut >= 0 else txt, txt.count("endhistory\n")))
         errt = err.decode("utf-8", "replace")
         if race:
             races += errt.split("==================")
-        if p.returncode != 0:
+        if p.returncode != 0 and not killed:
             if "goatcms/goatcore" in errt or "fatal error:" in errt:
                 # the process died inside goatcore code (a Go `fatal error` cannot be recovered)
                 crashes.append(errt[:3000])
@@ -749,7 +765,7 @@ def _stress(ctx, go, model, race=False):
         hb = _blocks(hp, "history ")
         ok = [v for v in verdicts if v.startswith("accept ") or v.startswith("reject ")]
         if len(ok) != len(hb):
-            if p.returncode != 0:
+            if p.returncode != 0 or killed:
                 hb = hb[:len(ok)]       # the last history was cut off by the crash
             else:
                 ctx.fatal("monitor gave %d verdicts for %d histories" % (len(ok), len(hb)))
@@ -774,6 +790,11 @@ def _stress(ctx, go, model, race=False):
                     ctx.samples.append(dict(history=[x.strip()[:160] for x in hl][:12], monitor=v))
             if v.startswith("reject "):
                 rejects.append((v, hl))
+    for seed, partial, nhist in stuck[:2]:
+        ctx.violation("impl-vs-spec", "a stress process%s did not end within %d s although every round runs under a watchdog: "
+                      "after %d complete histories an operation of the real memfs blocks for ever (reproduce: VERIF_SEED=%s "
+                      "memfsconc stress %d chaos)" % (" (race build)" if race else "", budget, nhist, seed, rounds),
+                      lines=[x for x in partial.split("\n") if x][:400], concrete=True)
     for c in crashes[:2]:
         ctx.violation("impl-vs-spec", "the stress process aborted inside goatcore code (a call panicked beyond recovery)",
                       annotations=c.split("\n")[:40], concrete=True)
@@ -871,8 +892,15 @@ def _run(ctx, go):
     rrej, rh, race_blocks = _stress(ctx, gor, model, race=True)
     e = ctx.goenv()
     e["GORACE"] = "halt_on_error=0"
-    p = subprocess.run([gor, "kfrace", "3000"], stdout=subprocess.PIPE, stderr=subprocess.PIPE, env=e, timeout=600)
-    kf_blocks = p.stderr.decode("utf-8", "replace").split("==================")
+    try:
+        p = subprocess.run([gor, "kfrace", "3000"], stdout=subprocess.PIPE, stderr=subprocess.PIPE, env=e, timeout=240)
+        kf_blocks = p.stderr.decode("utf-8", "replace").split("==================")
+    except subprocess.TimeoutExpired:
+        kf_blocks = []
+        concrete = True
+        ctx.violation("impl-vs-spec", "MkdirAll/Remove of d/e against WriteFile/Remove of d/e/x (3000 rounds, two goroutines, "
+                      "witness program of KF-C09-1) did not end within 240 s: an operation of the real memfs blocks for ever",
+                      concrete=True)
     known, unknown = _classify_races(ctx, race_blocks + kf_blocks)
     ctx.extra["race_detector"] = dict(histories=rh, rejected=len(rrej), goatcore_races_known=sorted(set(known)),
                                       goatcore_races_unknown=[u[0] for u in unknown])
